@@ -5,12 +5,13 @@ import os
 
 
 class Place:
-    __slots__ = ("local", "proj", "_key")
+    __slots__ = ("local", "proj", "_key", "blk")
 
     def __init__(self, j):
         self.local = j["l"]
         self.proj = j["p"]
         self._key = None
+        self.blk = None   # block where this place occurs (set by Block)
 
     @property
     def is_local(self):
@@ -75,12 +76,13 @@ class Place:
 
 
 class Operand:
-    __slots__ = ("k", "place", "j")
+    __slots__ = ("k", "place", "j", "blk")
 
     def __init__(self, j):
         self.k = j["k"]  # copy | move | const | runtime_checks
         self.place = Place(j["place"]) if "place" in j else None
         self.j = j
+        self.blk = None
 
     @property
     def is_const(self):
@@ -327,6 +329,26 @@ class Block:
         self.cleanup = j["cleanup"]
         self.stmts = [Stmt(s) for s in j["stmts"]]
         self.term = Term(j["term"], j.get("tspan"))
+        # every operand / place remembers the block it occurs in (use site for reachability-aware flow)
+        i = self.i
+        for s in self.stmts:
+            if s.place is not None:
+                s.place.blk = i
+            if s.rv is not None:
+                if s.rv.place is not None:
+                    s.rv.place.blk = i
+                for o in s.rv.ops:
+                    o.blk = i
+                    if o.place is not None:
+                        o.place.blk = i
+        t = self.term
+        for pl in (t.place, t.dest):
+            if pl is not None:
+                pl.blk = i
+        for o in list(t.args) + [x for x in (t.func, t.discr) if x is not None]:
+            o.blk = i
+            if o.place is not None:
+                o.place.blk = i
 
 
 class Body:
